@@ -150,6 +150,178 @@ def run_streams(params, prefix):
     return out
 
 
+# ---------------------------------------------------------------- the commands that take --limit-rate, end to end
+class LogBackend:
+    pass
+
+
+def make_log_backend(log):
+    from mc import world as W
+
+    class B(W.MemBackend):
+        def upload_stream(self, name, stream, length, chunk_size=128_000):
+            idx = self._begin('upload_stream', name)
+            try:
+                parts = []
+                while True:
+                    piece = stream.read(chunk_size)
+                    s_ = dsched.cur()
+                    log.append((s_.vclock if s_ else 0.0, len(piece), chunk_size))
+                    if not piece:
+                        break
+                    parts.append(bytes(piece))
+                self.store.o[name] = b''.join(parts)
+            finally:
+                self._end('upload_stream')
+
+        def download_stream(self, name, stream, chunk_size=128_000):
+            idx = self._begin('download_stream', name)
+            try:
+                data = self.store.o[name]
+                stream.truncate(len(data))
+                for i in range(0, len(data), chunk_size):
+                    stream.write(data[i:i + chunk_size])
+                    s_ = dsched.cur()
+                    log.append((s_.vclock if s_ else 0.0, len(data[i:i + chunk_size]), chunk_size))
+            finally:
+                self._end('download_stream')
+
+    return B
+
+
+@explore.register
+def run_command(params, prefix):
+    import os
+    import shutil
+    from mc import hist as H, world as W
+    import replicat.repository as RR
+    cmd, L, N = params['cmd'], params['L'], params['N']
+    VT.oversleep = 1.0
+    sc = H.worker_scratch()
+    root = sc.sub()
+    src = root / 'src'
+    files = {'f1': bytes(range(256)) * 12, 'f2': bytes(reversed(range(256))) * 9}
+    W.write_tree(src, files)
+    log = []
+    B = make_log_backend(log)
+    store = W.Store()
+    W.set_random('c20-cmd')
+    W.set_clock()
+    settings = W.default_settings(False, chunking={'min_length': 512, 'max_length': 1024}, hashing={'name': 'sha2', 'bits': 256})
+    W.run(W.a_init, store, settings)
+    if cmd in ('restore',):
+        async def pre():
+            repo = await W.a_open(store, None, N=N)
+            with W.captured():
+                await repo.snapshot(paths=[src])
+                await repo.close()
+        W.run(pre)
+    if cmd == 'download_objects':
+        store.o['objs/a'] = files['f1']
+        store.o['objs/b'] = files['f2']
+    cwd = os.getcwd()
+    os.chdir(root)
+    out_dir = root / 'out'
+
+    async def go():
+        repo = RR.Repository(B(store), concurrent=N, quiet=True, cache_directory=None)
+        with W.captured():
+            if cmd != 'upload_objects' and cmd != 'download_objects':
+                await repo.unlock()
+            log.clear()
+            if cmd == 'snapshot':
+                await repo.snapshot(paths=[src], rate_limit=L)
+            elif cmd == 'restore':
+                await repo.restore(path=out_dir, rate_limit=L)
+            elif cmd == 'upload_objects':
+                await repo.upload_objects([src / 'f1', src / 'f2'], rate_limit=L)
+            else:
+                await repo.download_objects(path=out_dir, object_prefix='objs/', rate_limit=L)
+        return True
+
+    try:
+        x = dsched.run_one(lambda loop, s: go(), prefix, horizon=20000)
+    finally:
+        os.chdir(cwd)
+    out = {'points': x.points, 'err': None, 'viol': []}
+    sig0 = {'part': 'commands', 'cmd': cmd}
+    if x.err is not None or x.exc is not None:
+        out['err'] = None if x.err is None else ('hang' if isinstance(x.err, dsched.Hang) else 'capped' if isinstance(x.err, dsched.Horizon) else 'diverged')
+        out['errmsg'] = repr(x.err or x.exc)[:200]
+        if out['err'] in (None, 'hang'):
+            out['viol'].append((dict(sig0, what='run-failed'), {'params': params, 'err': out['errmsg']}))
+        out['outcome'] = out['obs'] = ('ERR', out['errmsg'][:40])
+        shutil.rmtree(root, ignore_errors=True)
+        return out
+    # data integrity end to end
+    if cmd == 'upload_objects':
+        ok = sorted(v for k, v in store.o.items() if k.endswith(('f1', 'f2'))) == sorted(files.values())
+    elif cmd == 'download_objects':
+        ok = {p.name: p.read_bytes() for p in (out_dir / 'objs').iterdir()} == {'a': files['f1'], 'b': files['f2']}
+    elif cmd == 'restore':
+        ok = sorted(v[0] for v in W.read_tree(out_dir).values()) == sorted(files.values())
+    else:
+        ok = True
+    if not ok:
+        out['viol'].append((dict(sig0, what='data-altered'), {'params': params}))
+    ev = sorted((t_, n_) for t_, n_, c_ in log if n_)
+    chunk = max((c_ for _, _, c_ in log), default=1)
+    allowance = L * U.RateLimitedIO.PAUSE_LIMIT + N * chunk
+    worst, bad = 0.0, None
+    for i in range(len(ev)):
+        tot = 0
+        for j in range(i, len(ev)):
+            tot += ev[j][1]
+            excess = tot - (L * (ev[j][0] - ev[i][0]) + allowance)
+            if excess > worst + 1e-9:
+                worst, bad = excess, (ev[i][0], ev[j][0], tot)
+    if bad is not None:
+        out['viol'].append((dict(sig0, what='window-exceeded'),
+                            {'params': params, 'window': bad, 'transfer_chunk': chunk, 'limit': L,
+                             'rate_over_window': bad[2] / max(bad[1] - bad[0], 1e-9)}))
+    if chunk > max(L // 4, 1):
+        out['viol'].append((dict(sig0, what='transfer-chunk-larger-than-a-quarter-second-of-the-limit'),
+                            {'params': params, 'transfer_chunk': chunk, 'limit': L}))
+    total_t = ev[-1][0] - ev[0][0] if ev else 0
+    out['outcome'] = ('OK' if not out['viol'] else 'BAD', len(ev), round(total_t, 3))
+    out['obs'] = (out['outcome'], tuple(ev))
+    out['order'] = hash(tuple(ev))
+    shutil.rmtree(root, ignore_errors=True)
+    return out
+
+
+class PartialIO:
+    """A raw stream that accepts at most 3 bytes per write and says so."""
+
+    def __init__(self):
+        self.data = bytearray()
+        self.pos = 0
+
+    def write(self, b):
+        b = bytes(b)[:3]
+        self.data[self.pos:self.pos + len(b)] = b
+        self.pos += len(b)
+        return len(b)
+
+    def read(self, n=-1):
+        end = len(self.data) if n is None or n < 0 else min(len(self.data), self.pos + n)
+        out = bytes(self.data[self.pos:end])
+        self.pos = end
+        return out[:2] if len(out) > 2 else out   # short reads, too
+
+    def seek(self, pos, whence=0):
+        self.pos = pos if whence == 0 else (self.pos + pos if whence == 1 else len(self.data) + pos)
+        return self.pos
+
+    def tell(self):
+        return self.pos
+
+    def truncate(self, size=None):
+        size = self.pos if size is None else size
+        del self.data[size:]
+        return size
+
+
 # ---------------------------------------------------------------- transparency
 OPS = [('read', 3), ('read', -1), ('read', 0), ('write', b'xy'), ('write', b''), ('write', b'0123456789'), ('seek', 0), ('seek', 2),
        ('seek', 0, 2), ('tell',), ('truncate',), ('truncate', 0), ('truncate', 3), ('truncate', 20)]
@@ -179,12 +351,20 @@ def transparency_case(args):
     for seq in seqs:
         n += 1
         init = b'abcdefgh'
-        model = io.BytesIO(init)
-        model.seek(2)
-        under = io.BytesIO(init)
-        under.seek(2)
+        if wrapper_kind.endswith('+partial'):
+            model, under = PartialIO(), PartialIO()
+            for m_ in (model, under):
+                m_.data[:] = init
+                m_.pos = 2
+            under.getvalue = lambda u=under: bytes(u.data)
+            model.getvalue = lambda m__=model: bytes(m__.data)
+        else:
+            model = io.BytesIO(init)
+            model.seek(2)
+            under = io.BytesIO(init)
+            under.seek(2)
         lim = U.RateLimitedIO(10**12)
-        if wrapper_kind == 'limiter':
+        if wrapper_kind.startswith('limiter'):
             w = lim.wrap(under)
             allowed = {'read', 'write', 'seek', 'tell', 'truncate'}
         elif wrapper_kind == 'tqdm-reader':
@@ -255,6 +435,20 @@ def main():
                 chk.harness_error(f'{kk}: {v[2]}')
         tot.merge(agg)
     chk.sample({'L': 100, 'k': 2, 'sizes': [25, 12, 1, 25], 'latency': 'exact', 'direction': 'read', 'deviations': 1})
+    # the four commands that take a rate limit, end to end under virtual time
+    totc = explore.Agg()
+    for cmd in ('snapshot', 'restore', 'upload_objects', 'download_objects'):
+        for L in ((2000, 800) if t == 'quick' else (2000, 800, 100, 16000)):
+            for N in (1, 2):
+                agg, info = explore.explore(run_command, {'cmd': cmd, 'L': L, 'N': N}, 0 if t == 'quick' else 1)
+                for sig, d in agg.viol:
+                    chk.violation(sig, d)
+                for kk, v in agg.errs.items():
+                    if kk in ('capped', 'diverged'):
+                        chk.harness_error(f'{kk} in {cmd}: {v[2]}')
+                totc.merge(agg)
+    tot.merge(totc)
+    chk.sample({'part': 'commands', 'cmd': 'upload_objects', 'L': 2000, 'N': 2})
     # transparency
     seqs = []
     for n in (1, 2, 3, 4):
@@ -264,7 +458,7 @@ def main():
             base = OPS
         seqs += list(itertools.product(base, repeat=n))
     batches = []
-    for wk in ('limiter', 'tqdm-reader', 'tqdm-writer'):
+    for wk in ('limiter', 'tqdm-reader', 'tqdm-writer', 'limiter+partial'):
         for i in range(0, len(seqs), 4000):
             batches.append((wk, seqs[i:i + 4000]))
     ntr = 0
